@@ -1280,6 +1280,13 @@ func (x *vElRun) monitors(out *vOut, line string) {
 			wins = append(wins, win{i, w})
 		}
 	}
+	// a candidacy that succeeded was acknowledged as committed by a majority of ALL members (arbiters and weight-0 members vote too):
+	// that overlap is what makes a second winner impossible
+	for _, w := range wins {
+		if c := count[vElAck{0, w.a.num, w.a.host}]; c < x.n/2+1 {
+			report("C12:won-without-commit-majority", fmt.Sprintf("member %d's DoCommit succeeded for %d/%s (event #%d) with the commit acknowledged by %d of %d members (majority %d)", w.member, w.a.num, w.a.host, w.a.at, c, x.n, x.n/2+1))
+		}
+	}
 	for a := 0; a < len(wins); a++ {
 		for b := a + 1; b < len(wins); b++ {
 			p, q := wins[a], wins[b]
